@@ -27,6 +27,7 @@ import (
 	"sort"
 	"strings"
 	"sync"
+	"sync/atomic"
 	"time"
 
 	req "github.com/imroc/req/v3"
@@ -521,6 +522,12 @@ func mkIval(id int) req.GetRetryIntervalFunc {
 		rs.o.Ivals = append(rs.o.Ivals, callObs{id, att, st, errCode(resp.Err)})
 		if rs.attempt >= 0 && rs.attempt < len(rs.p.Script) && rs.p.Script[rs.attempt].WaitCancel {
 			rs.ctx.end(context.Canceled) // the caller gives up while the retry is being prepared
+			if id%3 == 0 {
+				// ... and the goroutine is held up until the (positive) interval is over as well: the
+				// wait then finds the interval elapsed AND the context ended, and must not go on
+				// (sleepContext's select took either case at random; seen once on a loaded machine)
+				rs.ctx.slowDone.Store(int64(6 * time.Millisecond))
+			}
 		}
 		if id%3 == 0 {
 			return 2 * time.Millisecond // a positive wait (interruptible by the context)
@@ -1226,13 +1233,21 @@ type scriptCtx struct {
 	mu   sync.Mutex
 	err  error
 	done chan struct{}
+	// slowDone: the next Done() call takes this long (once) - stands for a goroutine that is
+	// descheduled between arming the retry timer and looking at the context
+	slowDone atomic.Int64
 }
 
 func newScriptCtx() *scriptCtx {
 	return &scriptCtx{Context: context.Background(), done: make(chan struct{})}
 }
 
-func (c *scriptCtx) Done() <-chan struct{} { return c.done }
+func (c *scriptCtx) Done() <-chan struct{} {
+	if d := c.slowDone.Swap(0); d > 0 {
+		time.Sleep(time.Duration(d))
+	}
+	return c.done
+}
 
 func (c *scriptCtx) Value(k interface{}) interface{} {
 	if _, ok := k.(rsKey); ok {
